@@ -129,6 +129,21 @@ impl<'a> DsvCursor<'a> {
         core::str::from_utf8(self.current_field())
     }
 
+    /// True when the cursor sits at the end of the text directly after an unquoted
+    /// delimiter: the text has no final newline and its last field is empty (`a,b\n1,`).
+    /// That field starts where the data ends, so `next_field` reports "end of data" for it;
+    /// row-level access (`DsvFields`, `DsvRow::get`) uses this to still return it.
+    fn at_trailing_empty_field(&self) -> bool {
+        let len = self.text.len();
+        if len == 0 || self.position != len {
+            return false;
+        }
+        let last = len - 1;
+        let is_marker = self.index.markers_rank1(len) > self.index.markers_rank1(last);
+        let is_newline = self.index.newlines_rank1(len) > self.index.newlines_rank1(last);
+        is_marker && !is_newline
+    }
+
     /// Check if the current byte is a newline marker.
     fn at_newline(&self) -> bool {
         if self.position == 0 || self.position > self.text.len() {
@@ -178,7 +193,7 @@ impl<'a> DsvRow<'a> {
             ..self.cursor
         };
 
-        for _ in 0..column {
+        for step in 0..column {
             // Check if we hit a newline before reaching the column
             let field = cursor.current_field();
             if field.is_empty() && cursor.at_end() {
@@ -186,6 +201,11 @@ impl<'a> DsvRow<'a> {
             }
 
             if !cursor.next_field() {
+                // Stepped over a delimiter that is the last byte of the text: the row has
+                // one more (empty) field there.
+                if step + 1 == column && cursor.at_trailing_empty_field() {
+                    return Some(&cursor.text[cursor.text.len()..]);
+                }
                 return None;
             }
 
@@ -280,6 +300,11 @@ impl<'a> Iterator for DsvFields<'a> {
         // Move to next field
         if !self.cursor.next_field() {
             self.finished = true;
+            // We only get here after a field that ended at a delimiter. If that delimiter
+            // was the last byte of the text, the row ends with one more (empty) field.
+            if self.cursor.at_trailing_empty_field() {
+                return Some(&self.cursor.text[self.cursor.text.len()..]);
+            }
             return None;
         }
 
